@@ -8,12 +8,14 @@ The driver encodes generated well-formed values with the INDEPENDENT grammar (`s
 * monitor: `Afkak.Monitor.C05` (`mon-c05`): what the real decoder returned is exactly the encoded
   value - for message sets with the absolute offsets the protocol defines for format-0 and format-1
   compressed wrappers, to nesting depth 2.
-gzip is an external: compression is done here with Python's gzip, the real `gzip_decode` answers are
-recorded and handed to the model.
+gzip is an external of the model: compression is done here (1..4 gzip members per payload); the real
+`gzip_decode` is checked against an independent RFC 1952 decompressor (`ref_gunzip`), both on the
+wrapper payloads and in a stage of its own (`gzip_codec_cases`).
 """
 import gzip
 import json
 import os
+import zlib
 
 from harness.core import VERIF, Result
 from harness.lib import wire_common as W
@@ -24,7 +26,7 @@ COMPONENTS = ["wire"]
 TRUSTED = [
     "the Kafka protocol grammar as written in Afkak/Wire/Spec.lean (from the protocol guide) and, independently, in harness/sim/refcodec.py; their encodings are compared byte for byte on every run",
     "Afkak.Wire.Crc.crc32 (used to RUN grammar and model) is compared with zlib.crc32 on every run (C04 run); the theorems hold for any checksum function",
-    "gzip is an external: Python's gzip compresses, afkak's gzip_decode answers are recorded and handed to the model; theorems assume only gunzip(gzip x) = x",
+    "gzip is a parameter of the model and the theorems, which assume only gunzip(gzip x) = x; that assumption is CHECKED on the implementation every run: afkak.codec.gzip_decode / gzip_encode are compared with an independent RFC 1952 decompressor (zlib's gzip framing, member by member: harness/props/c05.py ref_gunzip) on single- and multi-member streams (empty members, optional header fields, zero padding) and on invalid ones (cut short, damaged trailer, trailing non-member bytes); wrapper payloads in the generated sets are written as 1..4 gzip members; for a payload the harness compressed itself the model and the monitor are given the data that was compressed (not the real function's answer) and the real gzip_decode's answer is checked against it",
     "the rendering of Python results into the driver's value syntax (harness/lib/wire_resps.py) - it includes the Python type of every field (a tuple where an int belongs does not render)",
 ]
 ASSUMPTIONS = [
@@ -36,7 +38,50 @@ CORPUS_DIR = os.path.join(VERIF, "corpus", "wire")
 
 
 def gz(data):
-    return gzip.compress(data, mtime=0)
+    """Compress a wrapper payload.  RFC 1952: a gzip file is a SERIES of members; a decompressor must
+    return the concatenation of all of them (GZIPInputStream, Python's gzip and afkak's gzip_decode
+    do).  So the payload is written as one member, or - decided by the payload's own checksum, i.e.
+    deterministically, so that replays rebuild the same bytes - as two or three members (an encoder
+    that finishes and restarts its compressor per chunk), possibly with an empty member and with
+    zero padding after the last one."""
+    h = zlib.crc32(data)
+    mode = h % 8
+    if mode >= 4 or len(data) < 2:
+        return gzip.compress(data, mtime=0)
+    cut = 1 + (h >> 3) % (len(data) - 1)
+    if mode == 0:
+        parts = [data[:cut], data[cut:]]
+    elif mode == 1:
+        cut2 = cut + (h >> 11) % (len(data) - cut + 1)
+        parts = [data[:cut], data[cut:cut2], data[cut2:]]
+    elif mode == 2:
+        parts = [data[:cut], b"", data[cut:]]  # an empty member in the middle
+    else:
+        parts = [b"", data[:cut], data[cut:], b""]
+    out = b"".join(gzip.compress(x, compresslevel=1 + (h >> 20) % 9, mtime=0) for x in parts)
+    return out + (b"\x00" * ((h >> 24) % 3) if mode == 3 else b"")
+
+
+class GunzipError(Exception):
+    pass
+
+
+def ref_gunzip(payload):
+    """Independent RFC 1952 decompressor (zlib's gzip framing, member by member): the concatenation of
+    every member's data; zero bytes after a member are padding; anything else after the last member,
+    an incomplete member or a bad trailer is an error.  Not Python's gzip module (which afkak uses)."""
+    out = []
+    data = bytes(payload)
+    while data:
+        d = zlib.decompressobj(16 + zlib.MAX_WBITS)
+        try:
+            out.append(d.decompress(data))
+        except zlib.error as e:
+            raise GunzipError(str(e))
+        if not d.eof:
+            raise GunzipError("incomplete member")
+        data = d.unused_data.lstrip(b"\x00")
+    return b"".join(out)
 
 
 # --------------------------------------------------------------------------- trees <-> JSON / grammar values
@@ -138,6 +183,208 @@ class Plan(object):
         self.sc = sc
         self.state = []
         self.items = []  # (kind 'corr'|'mon', line, expect-or-tags)
+        self.gunzip_failures = []
+
+
+def gzip_members(payload):
+    """number of gzip members in a valid stream (0 if it is not one)"""
+    n, data = 0, payload
+    try:
+        while data:
+            d = zlib.decompressobj(16 + zlib.MAX_WBITS)
+            d.decompress(data)
+            if not d.eof:
+                return 0
+            n += 1
+            data = d.unused_data.lstrip(b"\x00")
+    except zlib.error:
+        return 0
+    return n
+
+
+def gzip_codec_cases(ctx, res, n):
+    """afkak.codec.gzip_decode / gzip_encode against the independent RFC 1952 reference (`ref_gunzip`) on
+    generated streams.  VALID streams (1..4 members from independent compressors at different levels,
+    empty members, header fields FNAME/FEXTRA/FCOMMENT/FHCRC, zero padding at the end): gzip_decode must
+    return the concatenated data - that is the hypothesis gunzip(gzip x) = x of the C05 theorems, a
+    monitor failure otherwise; gzip_encode's output must be a valid stream that both decompressors
+    return to the input.  INVALID streams (cut short anywhere, damaged trailer CRC / length, bytes
+    that are not a member after the last member): both must refuse (model/implementation
+    correspondence: exception classes canonicalised to 'error')."""
+    import afkak.codec as AC
+
+    rng = ctx.rng
+
+    def member(data):
+        level = rng.choice([0, 1, 6, 9])
+        if rng.random() < 0.7:
+            return gzip.compress(data, compresslevel=level, mtime=rng.choice([0, 1500000000]))
+        # hand-written header with optional fields, raw deflate body, trailer
+        flg, extra = 0, b""
+        if rng.random() < 0.5:
+            flg |= 4
+            x = bytes(rng.getrandbits(8) for _ in range(rng.randrange(0, 9)))
+            extra += len(x).to_bytes(2, "little") + x
+        if rng.random() < 0.5:
+            flg |= 8
+            extra += bytes(rng.randrange(1, 256) for _ in range(rng.randrange(0, 6))) + b"\x00"
+        if rng.random() < 0.5:
+            flg |= 16
+            extra += bytes(rng.randrange(1, 256) for _ in range(rng.randrange(0, 6))) + b"\x00"
+        head = b"\x1f\x8b\x08" + bytes([flg]) + rng.getrandbits(32).to_bytes(4, "little") + bytes([rng.choice([0, 2, 4]), rng.choice([3, 255, 0])]) + extra
+        if rng.random() < 0.5:
+            head = head[:3] + bytes([flg | 2]) + head[4:]
+            head += (zlib.crc32(head) & 0xFFFF).to_bytes(2, "little")
+        c = zlib.compressobj(level, zlib.DEFLATED, -zlib.MAX_WBITS)
+        body = c.compress(data) + c.flush()
+        return head + body + (zlib.crc32(data) & 0xFFFFFFFF).to_bytes(4, "little") + (len(data) & 0xFFFFFFFF).to_bytes(4, "little")
+
+    def run_real(payload):
+        try:
+            return ("ok", AC.gzip_decode(payload))
+        except Exception as e:  # noqa: BLE001 - the class is canonicalised
+            return ("error", type(e).__name__)
+
+    def run_ref(payload):
+        try:
+            return ("ok", ref_gunzip(payload))
+        except GunzipError as e:
+            return ("error", str(e))
+
+    for i in range(n):
+        k = rng.choice([1, 1, 1, 2, 2, 3, 4])
+        parts = []
+        for _ in range(k):
+            r = rng.random()
+            ln = 0 if r < 0.15 else rng.randrange(1, 40) if r < 0.7 else rng.randrange(40, 3000)
+            parts.append(bytes(rng.getrandbits(8) for _ in range(ln)) if rng.random() < 0.5 else bytes(rng.choice(b"abc") for _ in range(ln)))
+        stream = b"".join(member(x) for x in parts)
+        data = b"".join(parts)
+        shape = rng.choice(["valid", "valid", "valid", "padded", "cut", "trailer", "garbage"])
+        if i == 0:
+            stream, data, shape = b"", b"", "valid"  # the empty stream: no member at all
+        if shape == "padded":
+            stream += b"\x00" * rng.randrange(1, 9)
+        elif shape == "cut" and len(stream) > 1:
+            stream = stream[: rng.randrange(1, len(stream))]
+        elif shape == "trailer":
+            j = len(stream) - 1 - rng.randrange(0, 8)
+            stream = stream[:j] + bytes([stream[j] ^ (1 << rng.randrange(8))]) + stream[j + 1 :]
+        elif shape == "garbage":
+            stream += rng.choice([b"", b"\x00\x00"]) + bytes([rng.randrange(1, 256)]) + bytes(rng.getrandbits(8) for _ in range(rng.randrange(0, 5)))
+        sc = {"op": "gzip", "shape": shape, "members": k, "stream": stream.hex() if len(stream) < 3000 else stream[:3000].hex() + "...", "len": len(stream)}
+        real, ref = run_real(stream), run_ref(stream)
+        res.evaluations += 1
+        res.count("gzip-codec:%s:members=%d:%s" % (shape, k, real[0]))
+        if shape in ("valid", "padded"):
+            res.nontrivial(["gzip", stream.hex()[:200], k])
+            if ref != ("ok", data):
+                res.disagreements.append({"component": "gzip-reference", "scenario": sc, "impl": "expected " + data.hex()[:200], "model": "reference " + repr(ref)[:200]})
+            if real != ("ok", data):
+                res.monitor_failures.append({"what": "afkak.codec.gzip_decode does not return the data of a valid gzip stream of %d member(s) (RFC 1952: the concatenation of all members)" % k,
+                                             "scenario": sc, "monitor_line": "gunzip(gzip x) = x", "verdict": (real[1].hex()[:300] if real[0] == "ok" else real[1]),
+                                             "expected": data.hex()[:300], "tags": ["c05-gunzip-not-inverse-of-gzip"]})
+        elif real[0] != ref[0] or (real[0] == "ok" and real[1] != ref[1]):
+            res.disagreements.append({"component": "gzip", "scenario": sc, "impl": "gzip_decode " + (real[1].hex()[:200] if real[0] == "ok" else "error " + real[1]),
+                                      "model": "RFC 1952 reference " + (ref[1].hex()[:200] if ref[0] == "ok" else "error " + ref[1])})
+        # the encoder: its output is a valid stream for the input, for both decompressors
+        if i % 4 == 0:
+            enc = AC.gzip_encode(data)
+            if run_ref(enc) != ("ok", data) or run_real(enc) != ("ok", data):
+                res.monitor_failures.append({"what": "gzip_decode(gzip_encode(x)) / reference(gzip_encode(x)) is not x", "scenario": {"op": "gzip-enc", "data": data.hex()[:3000]},
+                                             "monitor_line": "gunzip(gzip x) = x", "verdict": repr(run_ref(enc))[:200] + " / " + repr(run_real(enc))[:200], "tags": ["c05-gunzip-not-inverse-of-gzip"]})
+            res.count("gzip-codec:encode-roundtrip")
+    res.traces_validated += n
+
+
+def roundtrip_scenarios(rng, n):
+    """Messages for the REAL encoder: both formats, null/empty keys and values, attribute bits outside
+    the codec field, timestamps 0 / -1 / absent (stamped at encode time) / boundary / random, with an
+    explicit first offset or none; every fifth: the messages go through create_gzip_message."""
+    out = []
+    for i in range(n):
+        magic = rng.choice([0, 1, 1])
+        msgs = []
+        for _ in range(rng.choice([1, 1, 2, 3, 5])):
+            ts = None
+            if magic == 1:
+                ts = rng.choice([0, 0, -1, None, 1, 1500000000000, 2 ** 63 - 1, -(2 ** 63), W.gen_int(rng, 64, p_bad=0)])
+            attrs = 0 if rng.random() < 0.8 else rng.choice([8, 16, 32, 64, 24])
+            k, v = W.gen_bytes(rng, big=1 << 10), W.gen_bytes(rng, big=1 << 10)
+            msgs.append([magic, attrs, ts, None if k is None else k.hex(), None if v is None else v.hex()])
+        out.append({"op": "roundtrip", "msgs": msgs, "offset": rng.choice([None, None, 0, 7, W.gen_int(rng, 40, p_bad=0)]),
+                    "now": rng.choice(W.NOW_CHOICES), "wrap": (rng.choice([0, 1]) if i % 5 == 4 else None)})
+    return out
+
+
+def run_roundtrip(ctx, res, scs):
+    """Encode with the REAL encoder, decode with the REAL decoder: the Lean monitor (mon-c05 msgset) judges
+    what came out against the messages that went in (a message without a timestamp carries the encode
+    time); the model decoder must agree with the real one on the same bytes; the real encoder's bytes
+    must be the grammar's encoding of those messages (for create_gzip_message: the wrapper's payload,
+    decompressed by the reference, must be the grammar's encoding of the inner messages)."""
+    from afkak.common import Message
+    from afkak.kafkacodec import KafkaCodec as K
+    from afkak.kafkacodec import create_gzip_message
+
+    lines, owner = [], []
+    for sc in scs:
+        ms = [Message(m[0], m[1], None if m[3] is None else bytes.fromhex(m[3]), None if m[4] is None else bytes.fromhex(m[4]), m[2]) if m[0] == 1
+              else Message(m[0], m[1], None if m[3] is None else bytes.fromhex(m[3]), None if m[4] is None else bytes.fromhex(m[4])) for m in sc["msgs"]]
+        now = sc["now"]
+        exp_msgs = [[m[0], m[1], (now if (m[0] == 1 and m[2] is None) else m[2]), None if m[3] is None else bytes.fromhex(m[3]), None if m[4] is None else bytes.fromhex(m[4])] for m in sc["msgs"]]
+        off = sc["offset"]
+        res.evaluations += 1
+        res.nontrivial(sc)
+        for m in sc["msgs"]:
+            if m[0] == 1:
+                res.count("roundtrip:ts=%s" % ("none" if m[2] is None else "0" if m[2] == 0 else "-1" if m[2] == -1 else "other"))
+        try:
+            with W.Externals(now) as ext:
+                if sc["wrap"] is None:
+                    data = K._encode_message_set(ms, off)
+                    line = R.real_decode_set_line(data)
+                else:
+                    wrapper = create_gzip_message(ms, magic=sc["wrap"])
+        except Exception as e:  # noqa: BLE001
+            res.disagreements.append({"component": "wire", "scenario": clean(sc), "impl": "real encoder raised %s: %s" % (type(e).__name__, str(e)[:200]), "model": "well-formed messages encode"})
+            continue
+        res.count("op:roundtrip:%s" % ("flat" if sc["wrap"] is None else "create_gzip_message"))
+        if sc["wrap"] is not None:
+            try:
+                inner = ref_gunzip(wrapper.value)
+            except GunzipError as e:
+                inner = None
+                res.monitor_failures.append({"what": "create_gzip_message: the wrapper's value is not a gzip stream (%s)" % e, "scenario": clean(sc), "monitor_line": "-", "verdict": "-", "tags": ["c05-encode-decode-not-identity"]})
+                continue
+            val = vr([[0, m] for m in exp_msgs])  # create_gzip_message stores every inner offset as 0
+            lines += ["ext-clear", "ext-now i%d" % now, "spec-enc msgset " + val]
+            owner += [(sc, "state", None), (sc, "state", None), (sc, "enc-inner", ["ok " + vr(inner)])]
+            continue
+        val = vr([[(0 if off is None else off + i), m] for i, m in enumerate(exp_msgs)])
+        lines += ["ext-clear", "ext-now i%d" % now, "dec-set %s" % vr(data), "mon-c05 msgset %s | %s" % (val, line), "spec-enc msgset " + val]
+        owner += [(sc, "state", None), (sc, "state", None), (sc, "corr", [line]), (sc, "mon", ["c05-encode-decode-not-identity"]), (sc, "enc", ["ok " + vr(data)])]
+    got = ctx.model("wire", lines) if lines else []
+    for (sc, kind, x), line, g in zip(owner, lines, got):
+        if kind == "state":
+            continue
+        if kind == "corr":
+            res.traces_validated += 1
+            if g != x:
+                res.disagreements.append({"component": "wire", "scenario": clean(sc), "request": line[:3000], "impl": trunc(x), "model": trunc(g)})
+        elif kind == "mon":
+            v = g[0] if g else "none"
+            res.count("monitor:" + v)
+            if v not in ("ok", "out-of-range"):
+                res.monitor_failures.append({"what": "encoding messages with the real encoder and decoding the bytes with the real decoder did not give the messages back",
+                                             "scenario": clean(sc), "monitor_line": line[:6000], "verdict": trunc(g, 3000), "tags": list(x)})
+        elif kind == "enc":
+            if g != x and g and g[0].startswith("ok "):
+                res.disagreements.append({"component": "encoder-vs-grammar", "scenario": clean(sc), "request": line[:3000], "impl": "_encode_message_set " + trunc(x), "model": "grammar " + trunc(g)})
+        elif kind == "enc-inner":
+            if g != x and g and g[0].startswith("ok "):
+                res.monitor_failures.append({"what": "create_gzip_message: the wrapper's payload does not decompress to the encoding of the messages it was given (encode then decode is not the identity)",
+                                             "scenario": clean(sc), "monitor_line": line[:3000], "verdict": trunc(x, 1500), "tags": ["c05-encode-decode-not-identity"]})
 
 
 def first_round(ctx, scs):
@@ -193,12 +440,33 @@ def plan_one(sc, kind, val, data, known_gunzips, decs, rng, res):
         else:
             api, extra, fn = decs[kind]
             line = R.real_decode_line(kind, data, fn)
-    # externals: what the real gzip_decode returned, plus the pairs the harness compressed itself
-    p.state = ext.ext_lines()
-    seen = {i for i, _o in ext.gunzips}
+    # externals.  A payload the harness compressed itself has ONE right answer (RFC 1952: the data of
+    # all its members): the model and the monitor get that answer - what the protocol says the wrapper
+    # contains -, and the real gzip_decode's answer for it is CHECKED against it (the theorems' only
+    # assumption about the decompressor, gunzip(gzip x) = x, is thereby checked on the implementation).
+    # Other payloads (from corrupted bytes): what the real gzip_decode returned is handed over as is.
+    truth = dict(known_gunzips)
+    p.state = ["ext-clear", "ext-now i%d" % ext.now_ms]
+    seen = set()
+    for inp, out in ext.gunzips:
+        if inp in seen:
+            continue
+        seen.add(inp)
+        want = truth.get(bytes(inp)) if inp is not None else None
+        if want is not None and out != want:
+            res.count("gunzip:real-differs-from-rfc1952")
+            p.gunzip_failures.append({"payload": bytes(inp).hex()[:4000], "members": gzip_members(bytes(inp)),
+                                      "expected": want.hex()[:2000], "impl": "exception" if out is None else out.hex()[:2000]})
+            out = want
+        elif want is not None:
+            res.count("gunzip:real-agrees-with-rfc1952:members=%d" % min(gzip_members(bytes(inp)), 4))
+        p.state.append("ext-gunzip-err %s" % vr(inp) if out is None else "ext-gunzip %s %s" % (vr(inp), vr(out)))
     for comp, raw in known_gunzips:
         if comp not in seen:
             p.state.append("ext-gunzip %s %s" % (vr(comp), vr(raw)))
+    for l in ext.ext_lines():
+        if l.startswith("ext-gzip "):
+            p.state.append(l)
     if kind == "msgset":
         p.items.append(("corr", "dec-set %s" % vr(data), [line]))
     else:
@@ -242,6 +510,10 @@ def run_scenarios(ctx, res, scs, rng, mutants=0.5, chunk=300):
                     res.count("op:mutant")
         lines, owner = [], []
         for p in plans:
+            for gf in p.gunzip_failures:
+                res.monitor_failures.append({"what": "afkak's gzip_decode does not return the data of a valid gzip stream (RFC 1952: all members) that is the value of a compressed wrapper, "
+                                                     "so the wrapper's messages are not decoded as encoded", "scenario": clean(p.sc), "gunzip": gf, "monitor_line": "gunzip(gzip x) = x", "verdict": gf["impl"][:300],
+                                             "tags": ["c05-gunzip-not-inverse-of-gzip"]})
             lines.append("ext-clear"); owner.append((p, "state", None))
             for l in p.state[1:]:
                 lines.append(l); owner.append((p, "state", None))
@@ -342,6 +614,8 @@ def run(ctx, res):
                 "plus truncated / corrupted variants (correspondence only). non-trivial = every well-formed-value scenario (its bytes reached the real decoder "
                 "and the monitor ran on the result). distinct = by content hash.")
     run_scenarios(ctx, res, corpus(), ctx.rng, mutants=0.0)
+    gzip_codec_cases(ctx, res, ctx.scale(1500, 20000))
+    run_roundtrip(ctx, res, roundtrip_scenarios(ctx.rng, ctx.scale(800, 10000)))
     if ctx.tier == "thorough":
         import multiprocessing as mp
 
@@ -445,6 +719,8 @@ def search(ctx, res, broken):
         w = b.get("what")
         if isinstance(w, dict) and isinstance(w.get("scenario"), dict) and w["scenario"].get("kind"):
             kinds.add(w["scenario"]["kind"])
+    gzip_codec_cases(ctx, r2, ctx.scale(1500, 6000))
+    run_roundtrip(ctx, r2, roundtrip_scenarios(ctx.rng, ctx.scale(1500, 6000)))
     scs = generate(ctx.rng, sizes)
     extra = []
     for k in sorted(kinds):
@@ -471,7 +747,28 @@ def replay(ctx, data):
         return 0
     print("replay scenario:", json.dumps(sc)[:3000])
     r = Result()
-    run_scenarios(ctx, r, [dict(sc)], ctx.rng, mutants=0.0)
+    if sc.get("op") in ("gzip", "gzip-enc"):
+        import afkak.codec as AC
+
+        stream = AC.gzip_encode(bytes.fromhex(sc["data"])) if sc["op"] == "gzip-enc" else bytes.fromhex(sc["stream"].rstrip("."))
+        try:
+            real = "ok " + AC.gzip_decode(stream).hex()
+        except Exception as e:  # noqa: BLE001
+            real = "error " + type(e).__name__
+        try:
+            ref = "ok " + ref_gunzip(stream).hex()
+        except GunzipError as e:
+            ref = "error " + str(e)
+        print("gzip_decode        :", real[:1500])
+        print("RFC 1952 reference :", ref[:1500])
+        if real != ref and not (real.startswith("error") and ref.startswith("error")):
+            print("VIOLATION property=C05 replay=(this file)" if ref.startswith("ok") else "gzip_decode and the reference disagree on an invalid stream")
+            return 1
+        return 0
+    if sc.get("op") == "roundtrip":
+        run_roundtrip(ctx, r, [dict(sc)])
+    else:
+        run_scenarios(ctx, r, [dict(sc)], ctx.rng, mutants=0.0)
     for d in r.disagreements:
         print("request :", d.get("request", "")[:1500])
         print("  impl  :", d.get("impl"))
